@@ -12,7 +12,7 @@ func init() {
 		ID:    "C13",
 		Level: "other",
 		Run:   c13,
-		Explanation: "Structural necessary conditions of the halt-lock protocol, decided on every path of the anchored functions. Primary side: the guard set obtained from AcquireWriteLock is the one pinned in DB.haltLockAndGuard (so no local commit or checkpoint can take the write lock while the halt lock is granted), recovery precedes reading the position handed to the replica, the expiry is now+HaltLockTTL, every failure exit releases the set and the success exit does not; the same-id test runs inside the retry loop of AcquireWriteLock (callback invoked before every attempt) and returns a copy of the granted lock; release and expiry clear the reference by identity and then unlock exactly the stored set, and only for the matching id / an expired lock; the monitor that enforces expiry is started by Store.Open. Replica side (shared remote-halt family): reference stored only after the grant, cleared on every failed acquisition, on release (before the primary is told) and when a frame from the primary arrives; WaitPosExact returns nil only when TXID and checksum both equal the granted position. Forwarding: in CommitWAL, CommitJournal and Drop the forwarded commit precedes the local rename, its error prevents the rename, and the lock id sent is the held one; the primary's /tx handler applies a forwarded file only under DB.HoldsHaltLock(id from the request), whose definition compares with the currently granted id; the client sends that id under the query key the handler reads. Stream: a frame produced by this node is verified and discarded, never applied.",
+		Explanation: "Structural necessary conditions of the halt-lock protocol, decided on every path of the anchored functions. Primary side: the guard set obtained from AcquireWriteLock is the one pinned in DB.haltLockAndGuard (so no local commit or checkpoint can take the write lock while the halt lock is granted), recovery precedes reading the position handed to the replica, the expiry is now+HaltLockTTL, every failure exit releases the set and the success exit does not; the same-id test runs inside the retry loop of AcquireWriteLock (callback invoked before every attempt) and returns a copy of the granted lock; release and expiry clear the reference by identity and then unlock exactly the stored set, and only for the matching id / an expired lock; the monitor that enforces expiry is started by Store.Open. Replica side (shared remote-halt family): reference stored only after the grant, cleared on every failed acquisition, on release (before the primary is told) and when a frame from the primary arrives; WaitPosExact returns nil only when TXID and checksum both equal the granted position. Forwarding: in CommitWAL, CommitJournal and Drop the forwarded commit precedes the local rename, its error prevents the rename, and the lock id sent is the held one; the primary's /tx handler applies a forwarded file only under DB.HoldsHaltLock(id from the request), whose definition compares with the currently granted id; the client sends that id under the query key the handler reads. Stream: a frame produced by this node is verified and discarded, never applied. The FUSE lock file: the handle acquires and releases with one stable id assigned at creation, only for the HALT byte and a write lock, records the lock returned, releases on unlock and on close of the file. The expiry sweep visits every database unconditionally; an own frame's chunked body is drained before the frame counts as processed.",
 		NotDecided: "histories: lost or repeated responses, expiry racing a forwarded commit (the TODO 'prevent halt lock release during copy & apply' is a real window: see DESIGN.md), convergence of third replicas, primary change while a halt is held.",
 		Assumptions: []string{"go/ssa faithfully represents the source", "C11 (AcquireWriteLock yields the full write lock set)", "C12 (guards are reader/writer locks)"},
 	})
